@@ -342,6 +342,7 @@ type conv struct {
 	ui       uiCfg
 	msgs     []msg // last one is a terminal unless the model ends earlier
 	bytewise bool
+	burst    bool // the plugin writes all its messages in one write before reading any reply
 	timer    bool // WaitTimer installed and a 5.5 s silence before the first message
 	id       int
 }
@@ -494,6 +495,7 @@ func main() {
 			c.noData = true
 		}
 		c.bytewise = i%9 == 2
+		c.burst = i%4 == 1 && !c.bytewise && len(c.msgs) >= 2
 	}
 	// every UI configuration against every single UI-dependent message
 	for machine, alpha := range [][]msg{recipientAlphabet(), identityAlphabet()} {
@@ -563,7 +565,7 @@ type callResult struct {
 }
 
 func runConv(r *mon.Run, env *plug.Env, name string, c *conv) {
-	sc := &plug.Script{}
+	sc := &plug.Script{Burst: c.burst}
 	for i, m := range c.msgs {
 		switch m.term {
 		case "exit":
@@ -661,7 +663,10 @@ func runConv(r *mon.Run, env *plug.Env, name string, c *conv) {
 		r.Violate("no-transcript:"+desc, fmt.Sprintf("plugin left no transcript (was it started?): %v; call result err=%v", err, res.err), replayOf(c))
 		return
 	}
-	r.Distinct(fmt.Sprintf("%s bytewise=%v timer=%v", desc, c.bytewise, c.timer))
+	r.Distinct(fmt.Sprintf("%s bytewise=%v burst=%v timer=%v", desc, c.bytewise, c.burst, c.timer))
+	if c.burst {
+		r.Count("burst_conversations", 1)
+	}
 	r.Count("transcripts_checked", 1)
 	if tr.End == "self-timeout" {
 		hangs.Add(1)
@@ -804,6 +809,9 @@ func runConv(r *mon.Run, env *plug.Env, name string, c *conv) {
 
 // terminalOf names how the plugin ended the conversation (the class of a hang).
 func terminalOf(c *conv) string {
+	if c.burst {
+		return "burst:" + terminalOf(&conv{machine: c.machine, msgs: c.msgs})
+	}
 	mach := "recipient"
 	if c.machine == identityMachine {
 		mach = "identity"
@@ -831,7 +839,7 @@ func replayOf(c *conv) map[string]any {
 			raws = append(raws, string(m.raw))
 		}
 	}
-	return map[string]any{"conversation": c.describe(), "messages": raws, "ui": c.ui.String(), "bytewise": c.bytewise}
+	return map[string]any{"conversation": c.describe(), "messages": raws, "ui": c.ui.String(), "bytewise": c.bytewise, "burst": c.burst}
 }
 
 func sameStrings(a, b []string) bool {
